@@ -122,8 +122,9 @@ func runC09(c *Ctx) {
 	c.Assume("net/http delivers header and URL parsing; the request objects are built with httptest.NewRequest (targets that net/http itself refuses to parse are skipped)")
 	ri := &recInterceptors{}
 	st := &recStats{}
-	fxA, errA := NewFixture(c09Specs(), nil)
-	fxB, errB := NewFixture(c09Specs(), nil, larking.UnaryServerInterceptorOption(ri.Unary), larking.StreamServerInterceptorOption(ri.Stream), larking.StatsOption(st))
+	// both muxes also carry a registered codec that cannot frame streams (no ReadNext / WriteNext)
+	fxA, errA := NewFixture(c09Specs(), nil, larking.CodecOption("application/x-verif", verifCodec{}))
+	fxB, errB := NewFixture(c09Specs(), nil, larking.CodecOption("application/x-verif", verifCodec{}), larking.UnaryServerInterceptorOption(ri.Unary), larking.StreamServerInterceptorOption(ri.Stream), larking.StatsOption(st))
 	if errA != nil || errB != nil || fxA.RegErr != nil || fxA.RegPanic != nil {
 		c.SpecFail("fixture", "c09", fmt.Sprint(errA, errB, fxA.RegErr, fxA.RegPanic), "", "C09/fixture", "fixture")
 		return
@@ -336,7 +337,7 @@ func runC09(c *Ctx) {
 		switch kind {
 		case 0: // transcoding
 			q.entry = "transcoding"
-			ct := pick([]string{"application/json", "application/protobuf", "application/octet-stream", "text/plain", "", "application/json; charset=utf-8", "junk/;;", "application/x-www-form-urlencoded"})
+			ct := pick([]string{"application/json", "application/protobuf", "application/octet-stream", "text/plain", "", "application/json; charset=utf-8", "junk/;;", "application/x-www-form-urlencoded", "application/x-verif"})
 			if ct != "" {
 				add("Content-Type", ct)
 			}
@@ -350,7 +351,7 @@ func runC09(c *Ctx) {
 				q.body = mutate(enc)
 			}
 			if rnd.Intn(3) == 0 {
-				add("Accept", pick([]string{"*/*", "application/json;q=0.5, application/protobuf", ";;;", "a/b;q=x", "application/json;q=1.5", strings.Repeat("a/b,", 200), ""}))
+				add("Accept", pick([]string{"*/*", "application/json;q=0.5, application/protobuf", ";;;", "a/b;q=x", "application/json;q=1.5", strings.Repeat("a/b,", 200), "", "application/x-verif"}))
 			}
 			if o.stream && rnd.Intn(3) == 0 { // a well-formed gzip body on a streaming method
 				add("Content-Encoding", "gzip")
